@@ -544,6 +544,41 @@ theorem dumps_injective (lim : Nat) (a b : PyVal) (ha : jsonRep a = true) (hb : 
   rw [h, parseWith_dumps lim b hb nb] at h1
   exact (Except.ok.inj h1).symm
 
+/-! ### what a reader sees in the parsed document: lookups commute with key sorting
+
+(for the readers' side of the byte theorems: `json.load` hands the library `canon doc`, not the writer's `doc`; a reader
+that only looks keys up — `d[k]`, `d.get(k)` — sees the key-sorted sub-documents of what it would see in `doc`) -/
+
+theorem find?_eq_lookup (kvs : Kvs) (k : Str) : (kvs.find? (·.1 == k)).map (·.2) = lookup kvs k := by
+  induction kvs with
+  | nil => rfl
+  | cons p rest ih =>
+    obtain ⟨k', v⟩ := p
+    simp only [List.find?_cons, lookup]
+    cases h : (k' == k)
+    · simpa using ih
+    · simp
+
+/-- `PyVal.get?` on the document the parser returns -/
+theorem get?_canon (v : PyVal) (k : Str) (h : jsonRep v = true) :
+    (PyVal.canon v).get? k = (v.get? k).map PyVal.canon := by
+  cases v with
+  | dict kvs =>
+    simp only [jsonRep] at h
+    simp only [PyVal.canon, PyVal.get?, find?_eq_lookup, lookup_sortKvs_canonKvs kvs k h]
+  | none => rfl
+  | bool b => rfl
+  | int n => rfl
+  | float r => rfl
+  | str s => rfl
+  | other t => rfl
+  | list xs => simp [PyVal.canon, PyVal.get?]
+
+/-- `d[k]` through the modelled parser: reading key `k` in `json.loads(dumps(v))` gives the key-sorted `v[k]` -/
+theorem parseWith_dumps_get? (lim : Nat) (v : PyVal) (k : Str) (hrep : jsonRep v = true) (hnum : numsOk lim v = true) :
+    ∃ w, parseWith lim (dumps v) = .ok w ∧ w.get? k = (v.get? k).map PyVal.canon :=
+  ⟨_, parseWith_dumps lim v hrep hnum, get?_canon v k hrep⟩
+
 /-! ### when the side condition on numbers holds -/
 
 /-- with the digit limit disabled (`sys.set_int_max_str_digits(0)`) every integer is read back -/
